@@ -279,8 +279,8 @@ func TestVerifC20(t *testing.T) {
 	scratch, _ := os.MkdirTemp("", "verif-c20-")
 	defer os.RemoveAll(scratch)
 	c20Loc = filepath.Join(scratch, "x.conf")
-	r.Rule("every sequence of <= T atoms over 21 token-level atoms and of <= L atoms over 17 line-level atoms (braces, quotes, escapes, an escaped line break inside quotes, continuations, comments, macro definitions/uses incl. undefined and empty, snippets with self and mutual imports, env placeholders), nesting ladders around the limit, and every single-byte deletion/duplication of the two shipped configuration files; each is parsed by the real parser.Read under a panic/time/memory watchdog; oracle: returns; on success no Macro/Snippet/import node, no $(..) reference, valid names, depth bounded; print->parse round trip when expressible. Non-trivial: distinct shapes of successfully parsed non-empty trees")
-	r.Assume("environment of the parsing process contains only V=val; file imports resolve in an empty directory")
+	r.Rule("every sequence of <= T atoms over 21 token-level atoms and of <= L atoms over 17 line-level atoms (braces, quotes, escapes, an escaped line break inside quotes, continuations, comments, macro definitions/uses incl. undefined and empty, snippets with self and mutual imports, env placeholders), nesting ladders around the limit, every sequence of <= 4 atoms over 12 atoms that import files placed next to the configuration file (self-import, two-file cycle, .conf fall-back, import nested in a block of the imported file, file with snippet and macro, missing file), and every single-byte deletion/duplication of the two shipped configuration files; each is parsed by the real parser.Read under a panic/time/memory watchdog; oracle: returns; on success no Macro/Snippet/import node, no $(..) reference, valid names, depth bounded; print->parse round trip when expressible. Non-trivial: distinct shapes of successfully parsed non-empty trees")
+	r.Assume("environment of the parsing process contains only V=val; file imports resolve in a scratch directory that holds only the files of the file-import family")
 	r.StartWatchdog(20*time.Second, 1<<30, func(desc any, why string) {
 		cs, _ := desc.(c20Case)
 		fp := "C20:no-termination:other"
@@ -340,6 +340,28 @@ func TestVerifC20(t *testing.T) {
 	for i, s := range ladders {
 		run("ladder")(int64(i), s)
 	}
+	base = 1 << 43
+	// imports of files next to the configuration file: cycles through one or two files (by
+	// full name and through the ".conf" fall-back), an import nested in a block of the
+	// imported file, a file that defines a snippet and a macro, a missing file
+	for name, content := range map[string]string{
+		"self.conf":  "import self.conf\n",
+		"self2.conf": "a b\nimport self2\n",
+		"ping.conf":  "p q\nimport pong.conf\n",
+		"pong.conf":  "import ping\nr s\n",
+		"deep.conf":  "blk {\nimport deep.conf\n}\n",
+		"leaf.conf":  "x y\n(fs) {\nq r\n}\n$(fm) = v\nimport fs\n",
+		"chain.conf": "import leaf.conf\nz $(fm)\n",
+	} {
+		if err := os.WriteFile(filepath.Join(scratch, name), []byte(content), 0o600); err != nil {
+			r.HarnessError(err.Error())
+			return
+		}
+	}
+	fileAtoms := []string{"import self.conf", "import self2", "import ping.conf", "import deep.conf", "import leaf.conf", "import chain", "import missing.conf",
+		"a {", "}", "(s) {", "import s", "a b"}
+	r.Bound("file_import_atoms", len(fileAtoms))
+	c20Seq(fileAtoms, "\n", 4, run("file-imports"))
 	base = 1 << 42
 	// byte-level mutations of the shipped files
 	var idx int64
